@@ -12,6 +12,7 @@ import (
 	"unicode/utf8"
 
 	mod "github.com/craterdog/go-collection-framework/v4"
+	cdc "github.com/craterdog/go-collection-framework/v4/cdcn"
 	"verifharness/cdcngen"
 	"verifharness/core"
 	"verifharness/lib"
@@ -30,6 +31,7 @@ type parseOutcome struct {
 	Line      int
 	Pos       int
 	TokText   string
+	Raw       string // the complete panic message
 	Violation *core.Violation
 }
 
@@ -60,9 +62,13 @@ var knownLeaked int
 
 // parseChecked runs ParseSource on an arbitrary input and judges the outcome against the property.
 func parseChecked(input string) parseOutcome {
+	return parseCheckedWith(input, func(source string) any { return mod.ParseSource(source) })
+}
+
+func parseCheckedWith(input string, parse func(string) any) parseOutcome {
 	base := runtime.NumGoroutine()
 	var obj any
-	p, payload := lib.Call(func() { obj = mod.ParseSource(input) })
+	p, payload := lib.Call(func() { obj = parse(input) })
 	var out parseOutcome
 	show := input
 	if len(show) > 300 {
@@ -99,6 +105,7 @@ func parseChecked(input string) parseOutcome {
 				return out
 			}
 			out.Kind = "diagnostic"
+			out.Raw = e
 			out.TokType = m[1]
 			out.Line, _ = strconv.Atoi(m[2])
 			out.Pos, _ = strconv.Atoi(m[3])
@@ -495,6 +502,70 @@ func execTail(c tailCase, _ core.Source) (res core.Result) {
 	return
 }
 
+// ---------------------------------------------------------------- sub-check: one parser instance, several documents
+
+// A parser (and a notation) instance may be used for one document after another.  Whatever it keeps from
+// an earlier document -- accepted or rejected -- must not show in the outcome of the next: the value or the
+// complete diagnostic must be what a fresh parser gives for the same text.
+type reuseCase struct {
+	Via  string   `json:"via"` // parser | notation
+	Docs []string `json:"docs"`
+}
+
+var reuseDocs = []string{
+	"[1, 2](List)\n", "[1, 2", "[\n    1\n    2\n    #\n](List)\n", "[\n    1: 2\n    3: $\n    5: 6\n](Catalog)\n", "]", "[ ](Set)\n",
+	"[\n    \"a\"\n    \"b\"\n    \"c\"\n    \"d\"\n    %\n](Stack)\n", "[1, 2](List) [", "[\n    [\n        1\n        ?\n    ](List)\n](List)\n", "[1: ](Map)", "",
+	"[\n    1.5E+3\n    nil\n](Array)\n", "\n\n\n\n\n@", "[true, false](Queue)\n", "[\n    1\n](List)\n\n\n!",
+}
+
+func genReuse(s core.Source) reuseCase {
+	c := reuseCase{Via: core.Pick(s, []string{"parser", "notation"}, "via")}
+	n := 2 + s.Choose(3, "ndocs")
+	for i := 0; i < n; i++ {
+		c.Docs = append(c.Docs, core.Pick(s, reuseDocs, "doc"))
+	}
+	return c
+}
+
+func execReuse(c reuseCase, _ core.Source) (res core.Result) {
+	var parse func(string) any
+	if c.Via == "parser" {
+		parser := cdc.Parser().Make()
+		parse = func(source string) any { return parser.ParseSource(source) }
+	} else {
+		notation := cdc.Notation().Make()
+		parse = func(source string) any { return notation.ParseSource(source) }
+	}
+	rejected := 0
+	for i, doc := range c.Docs {
+		o := parseCheckedWith(doc, parse)
+		if o.Kind == "violation" {
+			o.Violation.Signature += "/reused-" + c.Via
+			o.Violation.Message = fmt.Sprintf("document %d of %q on one %s: %s", i+1, c.Docs, c.Via, o.Violation.Message)
+			res.Violation = o.Violation
+			return
+		}
+		fresh := parseChecked(doc)
+		if fresh.Kind == "violation" {
+			res.Violation = fresh.Violation
+			return
+		}
+		if o.Kind != fresh.Kind || o.Raw != fresh.Raw {
+			res.Violation = core.Violate("C12/outcome-depends-on-earlier-documents", "document %d of %q on one %s: %s %q, a fresh parser gives %s %q", i+1, c.Docs, c.Via, o.Kind, lib.Short(o.Raw), fresh.Kind, lib.Short(fresh.Raw))
+			return
+		}
+		if o.Kind == "diagnostic" {
+			rejected++
+		}
+	}
+	res.NonTrivial = rejected >= 1 && len(c.Docs) >= 2
+	if rejected >= 2 {
+		res.Classes = append(res.Classes, "two-documents-rejected-by-one-instance")
+	}
+	res.Classes = append(res.Classes, "via-"+c.Via)
+	return
+}
+
 type deepNestCase struct {
 	Depth int    `json:"depth"`
 	Shape string `json:"shape"`
@@ -551,6 +622,7 @@ func TestC12(t *testing.T) {
 	core.Rapid(r, core.Check[soupCase]{Name: "token-soup", Gen: genSoup, Exec: func(c soupCase, _ core.Source) core.Result { return execInput(c.Input) }, HangLimit: 120 * time.Second}, r.N(3000, 30000))
 	core.Rapid(r, core.Check[locCase]{Name: "located-errors", Gen: genLocated, Exec: execLocated, HangLimit: 120 * time.Second}, r.N(600, 6000))
 	core.DFS(r, core.Check[tailCase]{Name: "tails-after-error", Gen: genTail, Exec: execTail}, 0)
+	core.Rapid(r, core.Check[reuseCase]{Name: "one-parser-many-documents", Gen: genReuse, Exec: execReuse, HangLimit: 120 * time.Second}, r.N(1500, 15000))
 	depths := []int{1, 2, 9, 17, 50, 100, 300}
 	if r.Thorough() {
 		depths = append(depths, 1000, 2000)
